@@ -111,7 +111,8 @@ theorem payload_sensitive {p q : SigInput} (hp : p.WF) (hq : q.WF) (hne : p ≠ 
 
 /-! ### tipsets -/
 
-/-- What the theorems assume of the CID hash (blake2b-256): collision-free with 32-byte output. -/
+/-- The *idealised* CID hash: globally injective with 32-byte output (false of blake2b-256 and of every
+real hash, see `HashOK`). Used by the idealised-hash corollaries only. -/
 structure CidHashOK (B : Bytes → Bytes) : Prop where
   inj : ∀ a b, B a = B b → a = b
   len : ∀ a, (B a).length = 32
